@@ -67,6 +67,20 @@ CHECKS['C16'] = ('DESIGN.md#C16',
     'Ambiguous (sub)pixel-centre classifications and known finding F24 '
     'inputs are excluded and counted. Pixel values up to 1e30.')
 
+CHECKS['C19'] = ('DESIGN.md#C19',
+    'Hypothesis-generated images/centres/radii/masks/errors vs. the '
+    'independent aperture-sum oracle; generated normalize/unnormalize/read '
+    'histories vs. a fresh never-normalised reference; round-trip of the '
+    'encircled-energy interpolators',
+    'Generated-input search: every curve-of-growth point is compared with an '
+    'independently computed circular-aperture sum/area/error, every radial-'
+    'profile bin with Δsum/Δarea (errors in quadrature), constant images and '
+    'monotonicity laws are asserted, and generated histories of first reads '
+    'interleaved with normalize/unnormalize must reproduce reference/N for '
+    'every array. Held on N cases; not a proof.',
+    'Trusted: numpy, scipy PchipInterpolator semantics. Bins with ambiguous '
+    'pixel-centre classifications are skipped and counted.')
+
 NOT_APPLICABLE = []
 
 
